@@ -544,6 +544,24 @@ def class_h(rng):
     """one spelling used as a quoted string and as a number (or time pattern)
     in the same text, in either order: a valid script that must be accepted
     and must run without a fault"""
+    if rng.random() < 0.25:
+        # size: an expression nested dozens of levels deep, a loop over dozens
+        # of names, a long `and` list, a routine of a few hundred commands --
+        # valid texts that must be accepted and run to their end
+        k = rng.choice([12, 31, 33, 40, 64, 100])
+        return rng.choice([
+            'print { ' + '1 + ( ' * k + '1' + ' )' * k + ' } time 0',
+            'repeat in ' + ' and '.join(rng.choice(
+                ['"Top"', '"Strip"', '"Candle"', 'group "Pole"'])
+                for _ in range(k)) + ' as zz_l begin on zz_l end time 0',
+            'on ' + ' and '.join('"Top"' for _ in range(k)) + ' time 0',
+            'define zz_long begin ' + ' '.join(
+                'hue {} set "Top"'.format(j) for j in range(k)) +
+            ' end zz_long zz_long time 0',
+            'assign zz_t 0 repeat {} begin assign zz_t {{ zz_t + 1 }} end '
+            'print zz_t time 0'.format(k * 10),
+            'printf "' + ' '.join('{' + str(j) + '}' for j in range(k % 20 + 2))
+            + '" ' + ' '.join(str(j) for j in range(k % 20 + 2)) + ' time 0'])
     v = rng.choice(SPELLINGS)
     if ':' in v:
         parts = ['print "{}"'.format(v), 'time at {} on all'.format(v),
